@@ -175,6 +175,34 @@ def validate_histories(v: Verdict, results, prop: str):
         shutil.rmtree(sdir, ignore_errors=True)
 
 
+def binding_self_test(v: Verdict, res, prop: str):
+    """Demonstrates the binding: a recorded history with one event removed, and one with a corrupted
+    file content, must both be rejected by the strict trace specification."""
+    import copy
+    sdir = common.scratch(prop + "-selftest")
+    try:
+        dropped = copy.deepcopy(res["strict"])
+        k = len(dropped["ev"]) // 2
+        del dropped["ev"][k]
+        corrupt = copy.deepcopy(res["strict"])
+        for ev in corrupt["ev"][k:]:
+            for name, f in ev["files"].items():
+                if name.startswith("out_") and f["ls"]:
+                    f["ls"] = f["ls"] + ["ghost"]
+        scen = sdir / "scen.json"
+        scen.write_text(json.dumps(res["scen_json"]))
+        write_ndjson(sdir / "t.ndjson", [dropped, corrupt])
+        cfg = sdir / "t.cfg"
+        cfg.write_text("SPECIFICATION TSpec\n" + "".join(f"INVARIANT {i}\n" for i in STRICT_INVS))
+        r = run_tlc("Trace_Aggregator", str(cfg), env={"TRACE_FILE": str(sdir / "t.ndjson"), "SCEN_FILE": str(scen)}, cont=True, workers=2)
+        rejected = {int(d["vars"]["tid"]) for d in r.deadlocks} | {int(x["vars"]["tid"]) for x in r.violations}
+        if rejected != {1, 2}:
+            raise Machinery(f"binding self-test: tampered aggregator traces were not rejected (rejected={rejected})")
+        v.notes.append("binding self-test: a history with one event removed and one with a corrupted file content were both rejected by Trace_Aggregator")
+    finally:
+        shutil.rmtree(sdir, ignore_errors=True)
+
+
 def site_of(res):
     scn = res["scn"]
     kills = [s.get("kill_at") for s in res["sessions"]]
@@ -346,6 +374,8 @@ def check_C16(tier: str, v: Verdict):
             results += base + run_histories(jobs)
         results += run_histories(jobs_random(C16_SCENARIOS, 8 if tier == "quick" else 150, seed() + 16, root))
         validate_histories(v, results, "C16")
+        if tier == "thorough":
+            binding_self_test(v, next(r for r in results if not r["deadlock"] and not r["hang"] and r["nevents"] > 30 and r["scn"].get("workers") != "processes"), "C16")
         # uncontrolled: forked workers and thread pool
         st = stress_uncontrolled(v, "C16", root, 1 if tier == "quick" else 6)
         validate_obs_only(v, st, "C16")
